@@ -720,7 +720,7 @@ func (self *Value) findDeleteChild(path Path) (Node, int) {
 				valueLen = l
 			}
 		}
-		start = valueLen // start initial at the end of the message
+		start = it.p.Read + valueLen // start initial at the end of the message (offsets count the length prefix)
 		end = 0          // end initial at the begin of the message
 
 		// previous has change PathFieldName to PathFieldId
